@@ -249,6 +249,35 @@ def _deleg(ctx, model, recvs, args):
                 x = it.call(FuncRef(mf, B.mk(model, r), True), [B.mk(model, a)])
                 return it.call(FuncRef(mf, x, True), [B.mk(model, b)])
             n += _cmp(ctx, model, cname, meth, init, class3, method3, f"{cname}({r[0]}, {a[0]}, {b[0]}) [left fold]")
+            # six operands: still the same left fold
+            ops6 = [pairs[i % len(pairs)][i % 2] for i in range(6)]
+
+            def class6(it, ops6=ops6):
+                return it.construct(ci, [B.mk(model, o) for o in ops6])
+
+            def method6(it, ops6=ops6):
+                x = B.mk(model, ops6[0])
+                for o in ops6[1:]:
+                    x = it.call(FuncRef(mf, x, True), [B.mk(model, o)])
+                return x
+            n += _cmp(ctx, model, cname, meth, init, class6, method6, f"{cname}(6 operands) [left fold]", real=True)
+            # the empty pattern at every position of 4..7 operands (a neutral operand must be neutral wherever it stands)
+            empties = [r for r in recvs if r[1] == "Empty"]
+            for k in (4, 5, 6, 7) if empties else ():
+                base = [pairs[(i + k) % len(pairs)][i % 2] for i in range(k)]
+                for pos in [(i,) for i in range(k)] + [(0, 2), (2, k - 1), (1, 3)]:
+                    opsk = [empties[0] if i in pos else o for i, o in enumerate(base)]
+
+                    def classk(it, opsk=opsk):
+                        return it.construct(ci, [B.mk(model, o) for o in opsk])
+
+                    def methodk(it, opsk=opsk):
+                        x = B.mk(model, opsk[0])
+                        for o in opsk[1:]:
+                            x = it.call(FuncRef(mf, x, True), [B.mk(model, o)])
+                        return x
+                    n += _cmp(ctx, model, cname, meth, init, classk, methodk,
+                              f"{cname}({k} operands, empty pattern at {list(pos)}) [left fold]", real=True)
         else:
             extras = {"unary": [()], "unary+name": [(None,), ("nm",)], "unary+flag": [(False,), (True,)]}[kind]
             for r in some_r:
@@ -278,9 +307,9 @@ def _deleg(ctx, model, recvs, args):
     return n
 
 
-def _cmp(ctx, model, spelling, meth, func, form_a, form_b, inp):
-    a = _texts(B.run_thunk(model, form_a))
-    b = _texts(B.run_thunk(model, form_b))
+def _cmp(ctx, model, spelling, meth, func, form_a, form_b, inp, real=False):
+    a = _texts(B.run_thunk(model, form_a, real_classifier=real))
+    b = _texts(B.run_thunk(model, form_b, real_classifier=real))
     ctx.instance("R-DELEG", key=(spelling, inp), sample=f"{inp}: {sorted(set(a.values()))[:3]} vs method {meth}: {sorted(set(b.values()))[:3]}")
     if sorted(a.values()) != sorted(b.values()) or (set(a) == set(b) and a != b):
         ctx.violation("R-DELEG", func.relpath, func.short, f"{spelling} vs Pregex.{meth}",
